@@ -253,7 +253,7 @@ func (r *intraProxyStreamReceiver) Run(ctx context.Context, shardManager ShardMa
 	r.streamClient = streamClient
 
 	r.shardManager.RegisterActiveReceiver(r.sourceShardID, r)
-	defer r.shardManager.UnregisterActiveReceiver(r.sourceShardID)
+	defer r.shardManager.UnregisterActiveReceiver(r.sourceShardID, r)
 
 	// Register client-side intra-proxy stream in tracker
 	st := GetGlobalStreamTracker()
